@@ -29,6 +29,13 @@ def cls_name(m, c):
     for n in list(LAT.used):
         if z3.is_true(m.eval(LAT.K[n] == c, model_completion=True)):
             return n
+    # a symbolic (user-defined) class: name the most specific KNOWN ancestor the model places it under, so that a native replay raises an
+    # exception the code under test will treat the same way (e.g. an AssertionError subclass, not just "some ordinary exception")
+    known = [n for n in list(LAT.used) if n not in ('object', 'BaseException', 'Exception') and z3.is_true(m.eval(sub(c, LAT.K[n]), model_completion=True))]
+    if known:
+        best = [n for n in known if not any(o_ != n and n in LAT.ancestors(o_) for o_ in known)]
+        if best and z3.is_true(m.eval(sub(LAT.K[best[0]], K('BaseException')), model_completion=True)):
+            return best[0]
     return 'user-class(%s)' % ('ordinary' if z3.is_true(m.eval(sub(c, K('Exception')), model_completion=True)) else 'interrupt')
 
 
